@@ -1297,3 +1297,8 @@ RrvW21RoMfltDA==
         assert_eq!(hex::encode(expected_binary), hex::encode(decoded));
     }
 }
+
+// verification hook (add-only, inert unless built by `cargo kani`, which sets --cfg kani)
+#[cfg(kani)]
+#[path = "/verif/kani/armor_reader_harness.rs"]
+mod verif_kani;
